@@ -14,7 +14,8 @@ PROP = dict(
     level_note="Trusted: Go toolchain, rapid, the 150-line map model (duplicated in both test packages). Values/predicates exclude -2^63 (not representable "
                "in the sign-magnitude storage; see assumptions). Field.Range is only queried with predicates inside the declared bounds (it answers nil "
                "outside by contract); PQL covers predicates outside. Clearing is done through ImportValue(clear) with the stored value (the only int clear path). "
-               "Worktree carries tmp-fixes for D7/D8 (owned by gF): without them overwrites through ImportValue fail the check.",
+               "The bulk import path (fragment.importSetValue) is reached with requests of >= 10000/(bitDepth+1) values into one shard (unit pqlbulk); "
+               "reads are interleaved with the writes in the random and bulk units so that writes meet a warm row cache.",
     rule="distinct = hash of (bounds, depth, write mode) in the enumerated tier and of (bounds, write program) in the random tier. Non-trivial = a predicate "
          "outside the bit-depth range but inside the declared bounds was queried, or an extreme value is tied across shards, or a filter selects only negative "
          "values, or an overwrite shrinks a value (needs fewer bits), or the mixed write mode (overwrites + clears) was used.",
@@ -29,6 +30,7 @@ PROP = dict(
         U("fieldrand", ".", "^TestVerifC14_FieldRandom$", 400, 12000, sq=4, sth=12),
         U("pqlexh", "./server", "^TestVerifC14_PQLExhaustive$", 0, 0, sq=4, sth=12, rapid=False, timeout={"quick": 600, "thorough": 2400}),
         U("pqlrand", "./server", "^TestVerifC14_PQLRandom$", 100, 3600, sq=4, sth=12),
+        U("pqlbulk", "./server", "^TestVerifC14_PQLBulk$", 36, 1200, sq=4, sth=12),
         U("wit", ".", "^TestVerifWitness_(D16|D17|DQA[1-5])$", 0, 0, sq=1, sth=1, rapid=False),
         U("witapi", "./server", "^TestVerifWitness_DQA6$", 0, 0, sq=1, sth=1, rapid=False),
     ],
